@@ -15,6 +15,8 @@ CLAIMED = {
              ref='DESIGN.md section 4 C06'),
  'C13': dict(text='For 80+ public functions x enumerated argument templates x option variants, every array argument carries an unconstrained symbolic diagonal; after the call (return or exception) z3 proves cell by cell that the argument still holds its original terms on every explored path (path cap per case); a concrete non-zero diagonal variant backs up functions whose dependence on the diagonal is non-linear.',
              ref='DESIGN.md section 4 C13'),
+ 'C03': dict(text='distance_bin, reachdist, breadthdist, efficiency_bin and charpath on symbolic adjacency bits (all directed graphs on <= 4 nodes in one exploration) against Boolean k-step reachability; distance_wei, distance_wei_floyd (None/inv/log), efficiency_wei and rout_efficiency with every cell a symbolic length >= 0 (support and ties symbolic) against the minimum over all enumerated simple paths: distances, infinity iff unreachable, reach flags, zero diagonal, hop counts of some shortest path, mean and mean inverse distance.',
+             ref='DESIGN.md section 4 C03'),
  'C15': dict(text='kcore_bu / kcore_bd / score_wu run on symbolic adjacency bits (all graphs of the size in one exploration), symbolic k (Int) / s and weights (Real); z3 proves membership-meets-bound, output = input restricted to the core, reported size, maximality against all 2^n node subsets, and nestedness for k and k+1; peel lists and k-coreness are checked per labelled graph (bits forked) against an independent peeling.',
              ref='DESIGN.md section 4 C15'),
  'C16': dict(text='get_components / number_of_components on a symbolic symmetric real matrix with arbitrary diagonal: one path per labelled graph on <= 5 nodes (all 1024+), same-label iff connected in the Boolean closure, labels 1..m, sizes, agreement with distance_bin / breadthdist / reachdist, and BCTParamError on every path for asymmetric input.',
